@@ -54,6 +54,9 @@ def clampu(dt, u):
     return max(lo, min(hi, u))
 
 
+# run-length prefix spanning more than one value (offsets of the run take bits): a low value under
+# 20%, a long duplicate run reaching >= 80% cumulative, then outliers; needs few prefixes (low level)
+EXTRA_SHAPES = ["rl_wide"]
 SHAPES = ["constant", "two_pow2", "extremes", "lattice", "sparse", "poly", "uniform", "small", "clusters",
           "sorted_dups", "floats_special", "two_lattices", "near_full", "walk"]
 
@@ -147,6 +150,16 @@ def gen(dt, shape, n, rng):
         for _ in range(n):
             v = ulo + (v + rng.randint(-step, step) - ulo) % (span + 1)
             us.append(v)
+    elif shape == "rl_wide":
+        n = max(n, 1100)
+        a = rng.randint(ulo, max(ulo, uhi - 1000))
+        dlt = rng.choice([1, 2, 3, 7])
+        na = int(n * rng.uniform(0.10, 0.19))
+        nb = int(n * rng.uniform(0.62, 0.75))
+        us = [a] * na + [min(uhi, a + dlt)] * nb
+        while len(us) < n:
+            us.append(rng.choice([min(uhi, a + rng.randint(8, 900)), rng.randint(ulo, uhi)]))
+        rng.shuffle(us)
     elif shape == "floats_special":
         if dt[0] != "f":
             return gen(dt, "uniform", n, rng)
